@@ -161,6 +161,35 @@ def run_get_volume(eng, p):
     return "ok"
 
 
+def _lazy_masks(n):
+    out = []
+    for i in range(n):
+        m = np.zeros((10, 10), dtype=bool)
+        m[2:5 + i % 3, 2:5 + i // 3] = True
+        out.append(m)
+    return out
+
+
+def run_lazy(eng, p):
+    """LazyContourList (bounded cache of computed contours): whatever the
+    access history, item i is the contour of mask i (real class; the contour
+    tracer itself is replaced by a tag of the mask it was given)"""
+    CO = "dclab.features.contour"
+    n, k, cap = p["n"], p["k"], p["cap"]
+    masks = _lazy_masks(n)
+    ns = shadow(CO, get_contour=lambda m: ("contour-of", m.tobytes()))
+    lst = ns["LazyContourList"](masks, max_events=cap)
+    for j in range(k):
+        i = eng.int("i%d" % j)
+        eng.assume((i >= 0) & (i < n))
+        ii = int(eng.concretize(i))
+        got = lst[ii]
+        eng.prove(z3.BoolVal(got == ("contour-of", masks[ii].tobytes())),
+                  "LazyContourList[i] is the contour of mask i",
+                  info={"access": j, "index": ii})
+    return "ok"
+
+
 def run_dedup(eng, p):
     """features.contour.remove_duplicates: consecutive duplicate points of a
     (circular) contour are removed, nothing else -- in particular the last
@@ -359,7 +388,7 @@ def run_case(name, params):
         "moments", "volume", "crosstalk", "get_volume"))
     fn = {"moments": run_moments, "volume": run_volume, "bright": run_bright,
           "crosstalk": run_crosstalk, "get_volume": run_get_volume,
-          "dedup": run_dedup}[
+          "dedup": run_dedup, "lazy": run_lazy}[
         params["kind"]]
     eng.explore(lambda e: fn(e, params))
     return eng.stats()
@@ -380,6 +409,9 @@ def cases(tier, seed):
                         dict(kind="volume", n=n, law=law)))
     for n in ((2, 3) if tier == "quick" else (2, 3, 4)):
         out.append(("remove_duplicates n=%d" % n, dict(kind="dedup", n=n)))
+    for cap in (1, 2):
+        out.append(("lazy contour list, cache of %d, 4 accesses" % cap,
+                    dict(kind="lazy", n=3, k=4, cap=cap)))
     out.append(("get_volume n=3", dict(kind="get_volume", n=3, dup=0)))
     for dup in ((0, 3) if tier == "quick" else (0, 1, 2, 3)):
         out.append(("get_volume n=4 dup=%d" % dup,
@@ -509,6 +541,20 @@ def replay(case, params, v):
                                  % (p["law"], a, m1[a], b, m2[b],
                                     cont.tolist()))
         key = "cont_moments_cv|%s" % p["law"]
+    elif k == "lazy":
+        from dclab.features.contour import LazyContourList, get_contour
+        masks = _lazy_masks(p["n"])
+        lst = LazyContourList(masks, max_events=p["cap"])
+        hist = [int(vals.get("i%d" % j, 0)) for j in range(p["k"])]
+        for j, i in enumerate(hist):
+            got = np.asarray(lst[i])
+            exp = np.asarray(get_contour(masks[i]))
+            if got.shape != exp.shape or not np.all(got == exp):
+                fails.append("LazyContourList(max_events=%d): after the "
+                             "accesses %r, item %d is not the contour of "
+                             "mask %d" % (p["cap"], hist[:j], i, i))
+                break
+        key = "LazyContourList|wrong-contour-after-eviction"
     elif k == "dedup":
         from dclab.features.contour import remove_duplicates
         n = p["n"]
